@@ -1,7 +1,104 @@
 import Cherab.Drv.Proto
-open Cherab.Drv
+import Cherab.Model.Laser
+import Cherab.Gen.LaserEdges
+open Cherab.Drv Cherab.Laser
 
-/-- C18 driver: not yet implemented (echo) -/
+/-! C18 driver: the model of `Cherab/Model/Laser.lean` at `Float`, interpreting the generated class tables.
+
+stateful protocol (one object at a time):
+  new <Class> <arg> <bits> …      -> ok | ValueError | …          (runCtor)
+  set <prop> <bits>               -> ok | ValueError | noSuchSetter
+  dens <x> <y> <z>                -> bits                          (get_energy_density)
+  get <getter>                    -> bits | none
+  getl <getter>                   -> bits … | none                 (array getters)
+  eval <x>                        -> bits                          (spectrum(x))
+  geom                            -> n z0 h r … | ValueError       (generate_geometry)
+  notified                        -> count of notifier.notify() calls
+stateless:
+  erf <x> ; seg <r> <L> ; specc <lo> <hi> <n> ; specg <lo> <hi> <n> <mean> <stddev>
+-/
+
+def sqrtPi : Float := Float.sqrt 3.141592653589793
+
+/-- erf by the all-positive series 2/√π·x·e^{-x²}·Σ (2x²)^n/(2n+1)!! for |x| < 2.5, by the erfc continued fraction
+beyond (checked against libm on every run by the harness) -/
+def erfF (x : Float) : Float :=
+  let a := x.abs
+  if a != a then x else
+  let r :=
+    if a < 2.5 then
+      let x2 := 2.0 * a * a
+      let rec go (k : Nat) (n : Float) (term acc : Float) : Float :=
+        match k with
+        | 0 => acc
+        | k + 1 =>
+          let term' := term * x2 / (2.0 * n + 1.0)
+          go k (n + 1.0) term' (acc + term')
+      2.0 / sqrtPi * a * Float.exp (-(a * a)) * go 120 1.0 1.0 1.0
+    else if a > 6.5 then 1.0
+    else
+      let rec cf (k : Nat) (t : Float) : Float :=
+        match k with
+        | 0 => t
+        | k + 1 => cf k (a + ((k + 1).toFloat / 2.0) / t)
+      1.0 - Float.exp (-(a * a)) / (sqrtPi * cf 200 a)
+  if x < 0 then -r else r
+
+def extF : Ext Float :=
+  { c := lit Cherab.Gen.LaserEdges.speedOfLight.1 Cherab.Gen.LaserEdges.speedOfLight.2
+    pi := 3.141592653589793
+    sqrt := Float.sqrt
+    exp := Float.exp
+    erf := erfF
+    floorDiv := fun a b => (Float.floor (a / b)).toInt64.toInt
+    toNat := fun x => x.toUInt64.toNat }
+
+def resS : Res → String
+  | .ok => "ok" | .valueError => "ValueError" | .noSuchSetter => "noSuchSetter" | .notUnderstood => "notUnderstood"
+
+def segS : Option (List (Seg Float)) → String
+  | none => "ValueError"
+  | some l => toString l.length ++ (l.foldl (fun s g => s ++ " " ++ fFs [g.z0, g.height, g.radius]) "")
+
+abbrev St := Option (Cls × Obj Float)
+
+def argMap : List String → String → Float
+  | k :: v :: rest, a => if k == a then pF v else argMap rest a
+  | _, _ => 0.0
+
+def step (st : St) (ts : List String) : St × String :=
+  match ts with
+  | "new" :: cls :: kv =>
+    match Cherab.Gen.LaserEdges.classes.find? (fun t => t.name == cls) with
+    | none => (none, "noSuchClass")
+    | some t =>
+      let (o, r) := runCtor extF t (argMap kv)
+      (some (t, o), resS r)
+  | ["erf", x] => (st, fF (erfF (pF x)))
+  | ["seg", r, l] => (st, segS (generateSegmentedCylinder extF (pF r) (pF l)))
+  | ["specc", lo, hi, n] =>
+    let (lo, hi, n) := (pF lo, pF hi, pN n)
+    (st, fFs (wavelengths lo hi n ++ psdList (trapezoidPsd (constEval lo hi)) lo hi n))
+  | ["specg", lo, hi, n, mean, sd] =>
+    let (lo, hi, n, mean, sd) := (pF lo, pF hi, pN n, pF mean, pF sd)
+    let k := evalRhs extF .gaussCdfNorm sd
+    (st, fFs (wavelengths lo hi n ++ psdList (gaussBinPsd erfF mean k (delta lo hi n)) lo hi n))
+  | _ =>
+    match st with
+    | none => (st, "noObject")
+    | some (t, o) =>
+      match ts with
+      | ["set", p, v] =>
+        let (o', r) := setProp extF t o p (pF v)
+        (some (t, o'), resS r)
+      | ["dens", x, y, z] => (st, fF (energyDensity extF t o (pF x) (pF y) (pF z)))
+      | ["get", g] => (st, match getter extF t o g with | some v => fF v | none => "none")
+      | ["getl", g] => (st, match getterList extF t o g with | some l => fFs l | none => "none")
+      | ["eval", x] => (st, fF (specEvaluate extF t o (pF x)))
+      | ["geom"] => (st, segS (geometry extF t o))
+      | ["notified"] => (st, toString o.notified)
+      | _ => (st, "bad-op")
+
 def main : IO UInt32 := do
-  loop (stateless fun ts => " ".intercalate ts) (← IO.getStdin) (← IO.getStdout) ()
+  loop step (← IO.getStdin) (← IO.getStdout) (none : St)
   return 0
